@@ -80,3 +80,34 @@ extern "C" void h_roundtrip(void)
 	vp_note(txt.length());
 	vp_reach(1);
 }
+
+// write -> read through a file larger than the 16382-byte read chunk: a string with a control character (written as \u00XX)
+// is placed so that the escape straddles the chunk boundary.  p0 = offset of the escape relative to the boundary (-8..+2),
+// p1 = 0 JSON / 1 XDL; the control character and one neighbour are symbolic.
+#include <asl/File.h>
+extern "C" void h_file_chunk(void)
+{
+	int shift = vp_param(0), xdl = vp_param(1);
+	byte ctl = nondet_u8(); vp_assume(ctl >= 1 && ctl < 32 && ctl != '\n' && ctl != '\r' && ctl != '\t' && ctl != '\f' && ctl != '\b');
+	char nb = (char)nondet_u8(); vp_assume(nb >= 'a' && nb <= 'z');
+	// document: ["<pad>", "<nb><ctl>z"] - the second string starts at about 16382 + shift
+	int pad = 16382 + shift - 7;
+	static char padbuf[16500];
+	for (int i = 0; i < pad; i++) padbuf[i] = (char)('a' + i % 23);
+	padbuf[pad] = 0;
+	char tail[4] = { nb, (char)ctl, 'z', 0 };
+	Var v; v << Var(padbuf) << Var(tail);
+	const char* path = "big.json";
+	bool ok = xdl ? Xdl::write(v, path) : Json::write(v, path);
+	vp_assert(ok, "the file is written");
+	Var r = xdl ? Xdl::read(path) : Json::read(path);
+	vp_assert(r.ok() && r.is(Var::ARRAY) && r.length() == 2, "reading the file back gives an array of two strings");
+	if (r.ok() && r.is(Var::ARRAY) && r.length() == 2)
+	{
+		vp_assert(r[0].is(Var::STRING) && r[0].toString().length() == pad, "the long string survives");
+		String t = r[1].toString();
+		vp_assert(t.length() == 3 && t[0] == nb && (byte)t[1] == ctl && t[2] == 'z', "a control character escaped across the read-chunk boundary is recovered");
+	}
+	vp_note(pad);
+	vp_reach(9);
+}
